@@ -200,6 +200,14 @@ Fixpoint ext_of (p : list N) : list N :=
               end
   end.
 
+(* the Location of the directory redirect (repaired by a6ff7cd): the NORMAL form of the request path, every byte except the
+   slash written with util::urlencode (one byte at a time: normal.substr(i,1)), plus a slash unless that gives the root.
+   location != slash  iff  normal != slash : only the single slash encodes to a single slash (Proofs: encode_path_is_root) *)
+Definition enc_path1 (c : N) : list N := if c =? slash then [slash] else urlenc1 c.
+Definition encode_path (p : list N) : list N := flat_map enc_path1 p.
+Definition safe_location (f : list N) : list N :=
+  let l := encode_path (normalize f) in if leqb l [slash] then l else l ++ [slash].
+
 Section Env.
   (* the operating system as seen by the file server *)
   Variable canonical : list N -> option (list N).          (* realpath / canonicalize_file_name *)
@@ -254,7 +262,7 @@ Section Env.
           let mode2 := match idx with Some p2 => file_mode (cstr p2) | None => 0 end in
           let have_index := match idx with Some _ => has_bit mode2 S_IFREG | None => false end in
           if negb (is_nil file_name) && negb (last file_name 0 =? slash) && (have_index || listing cfg)
-          then RRedirect (file_name ++ [slash])
+          then RRedirect (safe_location file_name)
           else if have_index
                then match idx with Some p2 => serve p2 mode2 | None => R404 end
                else if listing cfg then list_dir file_name path else R404
@@ -286,22 +294,26 @@ Fixpoint fs_lookup_rev (fs : fsdesc) (rp : list N) : option node :=
 Definition fs_lookup (fs : fsdesc) (p : list N) : option node := fs_lookup_rev fs (rev p).
 
 (* cur: resolved components, innermost first; todo: components still to walk *)
-Fixpoint rp_walk (fs : fsdesc) (fuel : nat) (cur : list (list N)) (todo : list (list N)) : option (list (list N)) :=
+(* links: how many more symbolic links may be followed in this resolution.  Linux follows at most MAXSYMLINKS = 40 per
+   path walk (fs/namei.c: total_link_count) and glibc realpath/canonicalize_file_name at most 40 (eloop threshold): the 41st
+   link fails with ELOOP - also on a chain that has no cycle *)
+Definition MAXSYMLINKS : nat := 40.
+Fixpoint rp_walk (fs : fsdesc) (fuel : nat) (links : nat) (cur : list (list N)) (todo : list (list N)) : option (list (list N)) :=
   match fuel with
   | O => None
   | S f =>
     match todo with
     | [] => Some cur
     | c :: rest =>
-        if is_nil c || is_dot c then rp_walk fs f cur rest
-        else if is_dotdot c then rp_walk fs f (tl cur) rest
+        if is_nil c || is_dot c then rp_walk fs f links cur rest
+        else if is_dotdot c then rp_walk fs f links (tl cur) rest
         else match fs_lookup fs (render (rev (c :: cur))) with
              | None => None
-             | Some NDir => rp_walk fs f (c :: cur) rest
+             | Some NDir => rp_walk fs f links (c :: cur) rest
              | Some (NLink t) =>
-                 match t with
-                 | [] => None
-                 | x :: _ => rp_walk fs f (if x =? slash then [] else cur) (split_slash t ++ rest)
+                 match links, t with
+                 | S links', x :: _ => rp_walk fs f links' (if x =? slash then [] else cur) (split_slash t ++ rest)
+                 | _, _ => None                       (* ELOOP, or the empty target (ENOENT) *)
                  end
              | Some _ => if is_nil rest then Some (c :: cur) else None
              end
@@ -313,7 +325,7 @@ Definition fs_fuel (fs : fsdesc) (p : list N) : nat := (64 + 48 * (length p + le
 Definition fs_realpath (fs : fsdesc) (p : list N) : option (list N) :=
   match p with
   | c :: r => if c =? slash
-              then match rp_walk fs (fs_fuel fs p) [] (split_slash r) with
+              then match rp_walk fs (fs_fuel fs p) MAXSYMLINKS [] (split_slash r) with
                    | Some cur => Some (render (rev cur))
                    | None => None
                    end
